@@ -116,6 +116,7 @@ pub enum QKind {
     Sorted,
     Lack,
     Nosuch,
+    Cols3,
 }
 
 impl QKind {
@@ -126,6 +127,7 @@ impl QKind {
             "sorted" => QKind::Sorted,
             "lack" => QKind::Lack,
             "nosuch" => QKind::Nosuch,
+            "cols3" => QKind::Cols3,
             _ => return None,
         })
     }
@@ -136,6 +138,7 @@ impl QKind {
             QKind::Sorted => "sorted",
             QKind::Lack => "lack",
             QKind::Nosuch => "nosuch",
+            QKind::Cols3 => "cols3",
         }
     }
     pub fn sql(&self) -> String {
@@ -145,6 +148,7 @@ impl QKind {
             QKind::Sorted => format!("SELECT id FROM {} ORDER BY id LIMIT 1000000", TABLE),
             QKind::Lack => format!("SELECT id, x FROM {} LIMIT 1000000", TABLE),
             QKind::Nosuch => format!("SELECT id, nosuch FROM {} LIMIT 1000000", TABLE),
+            QKind::Cols3 => format!("SELECT id, b, x FROM {} LIMIT 1000000", TABLE),
         }
     }
 }
@@ -158,6 +162,8 @@ pub enum QRes {
     Panic(String),
     Hang,
     Malformed(String),
+    /// a row whose id (a column every batch carries) came back NULL
+    NullId(String),
 }
 
 #[derive(Clone, Debug)]
@@ -314,11 +320,19 @@ pub fn run_query(rt: &tokio::runtime::Runtime, db: &LocustDB, kind: QKind, deadl
                 }
             } else {
                 let mut v = Vec::with_capacity(rows.len());
-                for r in rows {
+                let mut nulls = 0usize;
+                for r in &rows {
                     match r.first() {
                         Some(Value::Int(i)) => v.push((*i, r.get(1).cloned())),
+                        Some(Value::Null) => nulls += 1,
                         other => return QRes::Malformed(format!("id cell {:?}", other)),
                     }
+                }
+                if nulls > 0 {
+                    let mut batches: Vec<usize> = v.iter().map(|r| batch_of_id(r.0)).collect();
+                    batches.sort();
+                    batches.dedup();
+                    return QRes::NullId(format!("{} of {} rows have id = NULL; batches with ids: {:?}; columns {:?}", nulls, rows.len(), batches, out.colnames));
                 }
                 QRes::Rows(v)
             }
